@@ -49,6 +49,12 @@ def run_check(pid, tier, seed, table, no_proofs=False):
             pr = {"theorems": [], "accepted": [], "axioms": {}, "ok": False, "cmd": "make", "log": out[-3000:]}
         else:
             pr = proofs.check_props(pid)
+        if tier == "thorough" and pr["ok"]:
+            chk = proofs.coqchk(pid)
+            pr["coqchk"] = {k: chk[k] for k in ("cmd", "rc", "wall_s", "axioms", "ok")}
+            if not chk["ok"]:
+                pr["ok"] = False
+                pr["log"] += "\ncoqchk: " + chk["tail"]
         bad_tokens = proofs.forbidden_tokens()
         if bad_tokens:
             pr["ok"] = False
@@ -156,6 +162,8 @@ def run_check(pid, tier, seed, table, no_proofs=False):
         "trusted_base": tb,
         "theorems": pr["theorems"],
         "axioms_per_theorem": pr["axioms"],
+        "coqchk": pr.get("coqchk"),
+        "proof_result_cached": bool(pr.get("cached")),
         "evaluations": corr_cases + (mon.evaluations if mon else 0) + searched,
         "distinct_nontrivial": nontrivial + (mon.nontrivial if mon else 0),
         "rule": spec["rule"],
